@@ -309,6 +309,24 @@ def oracle_c06(cases, results, seed, thorough):
     # a trait-level `repeat(..)` hands parameters of one counterpart's instruction to the following instructions on purpose:
     # such items are outside the projection's premise (C14 covers them)
     items = [it for it in items if not any(a.tag and a.tag[0] == "trait" and "repeat" in (a.args or "") for a in it.attrs)]
+    # member-level repeat next to dedication: a member that repeats a default mapping instruction, and a later member that
+    # spells out an instruction of the *same name* dedicated to one counterpart — for the other counterparts the repeated
+    # one is still in force, with or without that dedicated instruction
+    r6 = random.Random(seed + 66)
+    for it in list(items):
+        if it.kind != "struct" or it.shape != "named" or len(it.fields) < 2 or r6.random() > 0.35:
+            continue
+        if any(a.name in ("repeat", "skip_repeat", "stop_repeat") for f in it.fields for a in f.attrs):
+            continue
+        tw = copy.deepcopy(it)
+        tw.meta["id"] = it.meta["id"] + "+rd"
+        nm = r6.choice(["map", "from", "into", "map_owned", "map_ref", "into_existing"])
+        k0 = r6.randrange(len(tw.fields) - 1)
+        tw.fields[k0].attrs += [gen.Instr("repeat", r6.choice([None, "map"]), tag=("rep", None)), gen.Instr(nm, r6.choice(["zq_r", "zq_r, ~.clone()"]), tag=("mmap", None))]
+        c = r6.choice(tw.meta["cparts"])
+        f1 = r6.choice(tw.fields[k0 + 1:])
+        f1.attrs.append(gen.Instr(nm, c + "| " + r6.choice(["zq_own", "zq_own, ~.clone()"]), tag=("mmap", c)))
+        items.append(tw)
     full = [(it.meta["id"], gen.render(it)) for it in items]
     a = expand("s1", full)
     # project onto every counterpart in turn (not only the first one written)
@@ -875,7 +893,7 @@ def oracle_c05_shadowed(seed, thorough):
     r = random.Random(seed + 55)
     items = []
     for k, prof in enumerate(["member-instrs", "enum-members", "multi-counterpart", "shape-change"]):
-        items += gen.gen_items(prof, seed * 1000 + 360 + k, 300 if not thorough else 3000)
+        items += gen.gen_items(prof, seed * 1000 + 360 + k, 700 if not thorough else 4000)
     pairs = []
     for it in items:
         req = requested_kinds(it)
@@ -912,6 +930,27 @@ def oracle_c05_shadowed(seed, thorough):
                 ded = tagc + "| "
         f2.attrs.insert(r.randrange(len(f2.attrs) + 1), gen.Instr(gen.UNTRY[a.name], ded + r.choice(["zz_shadowed", "zz_shadowed, ~.clone()", "{ shadowed() }"]), tag=("mmap", tagc)))
         pairs.append((it.meta["id"], gen.render(it), gen.render(it2)))
+    # a designed family of the same question where the *name* matters: a payload member of a variant destructured by name
+    # (and a member of a named struct), whose fallible instruction carries an expression and no name — the infallible twin's
+    # name must not leak into the fallible conversion (pattern binding, field read)
+    for k in range(40 if not thorough else 300):
+        tl = r.choice(["try_from", "try_from_owned", "try_from_ref", "try_map", "try_map_owned"])
+        ml = r.choice([n for n in ("try_from", "try_map", "try_from_owned", "try_from_ref", "try_map_owned", "try_map_ref") if set(gen.kinds_of(n)[0]) & set(gen.kinds_of(tl)[0])])
+        c = r.choice(["A", "m::D"])
+        ded = r.choice(["", "", c + "| "])
+        act = r.choice(["m!(~)", "{ ~.parse()? }", "~.try_into()?"])
+        twin = f"#[{gen.UNTRY[ml]}({ded}zz_shadowed{r.choice(['', ', ~.clone()'])})]"
+        own = f"#[{ml}({ded}{act})]"
+        pair = lambda t: " ".join([own, t] if r.random() < 0.5 else [t, own]).strip()
+        if r.random() < 0.6:
+            mk = lambda t: f"#[{tl}({c}, String)] enum E {{ V0, V1 {{ {pair(t)} a: i32, b: u8 }} }}"
+        else:
+            mk = lambda t: f"#[{tl}({c}, String)] struct S {{ {pair(t)} a: i32, b: u8 }}"
+        st = r.getstate()
+        s0 = mk("")
+        r.setstate(st)
+        s1 = mk(twin)
+        pairs.append((f"dz-{k}", s0, s1))
     a = expand("s1", [(i, s) for i, s, _ in pairs])
     b = expand("s1", [(i, s2) for i, _, s2 in pairs])
     n = 0
